@@ -34,7 +34,7 @@ def run(ck):
     ri = S.m["rotateIfNeeded"]
     g = S.g(cs)
     LF = RP + "::m_maxFileSize"
-    rot = [n for n in cs.calls(RP + "::rotate")]
+    rot = [n for n in S.calls_to(cs, "rotate")]
     ck.require(len(rot) == 1, "checkSizeRotation calls rotate() %d times" % len(rot))
     rsite = g.site_of(rot[0])
     # the current-size local
@@ -86,7 +86,7 @@ def run(ck):
     ck.ob("C07-O1", sitestr(cs), True, "%d comparisons, all unit-coefficient linear over (current, added, limit): %s" % (len(conds), [describe(c) for c in conds]))
     # the added size passed by rotateIfNeeded
     gi = S.g(ri)
-    calls = [n for n in ri.calls(RP + "::checkSizeRotation")]
+    calls = [n for n in S.calls_to(ri, "checkSizeRotation")]
     ck.require(len(calls) == 1, "rotateIfNeeded calls checkSizeRotation %d times" % len(calls))
     arg = deref_local(ri, calls[0]["args"][0])
 
@@ -151,7 +151,7 @@ def run(ck):
     ck.ob("C07-O3", sitestr(cs), not bad, "the early return is taken only for L <= 0" if not bad else "checkSizeRotation returns early for L in %s" % bad, key="checkSizeRotation|early-return")
     snd = S.send
     gs = S.g(snd)
-    rcall = [n for n in snd.calls(RP + "::rotateIfNeeded")]
+    rcall = [n for n in S.calls_to(snd, "rotateIfNeeded")]
     wcall = [n for n in snd.calls() if name_is(n.get("callee"), ("send",)) and n.get("qualified")]
     ok = len(rcall) == 1 and len(wcall) == 1 and gs.dominated(gs.site_of(wcall[0]), {gs.site_of(rcall[0])})
     ck.ob("C07-O3", sitestr(snd), ok, "the check precedes the write of the record" if ok else "the record is written before the size check", key="send|check-after-write")
